@@ -272,6 +272,16 @@ def run_case(case, driver, stats=None, trace=None):
     for k, op in enumerate(case["ops"]):
         before_arch = snap_archive(real)
         dir_before = None if get_dir() is None else snap_value(copy.deepcopy(get_dir()))
+        if op["op"] == "grow":
+            # the harness itself grows a ProximityArchive beyond its current bounds: the measure ranges a later reset must use change
+            if real is not None and type(real).__name__ == "ProximityArchive" and len(real):
+                dtm = real.upper_bounds.dtype.type
+                far = (real.upper_bounds + op["by"] * (real.upper_bounds - real.lower_bounds + 1)).astype(dtm)
+                real.add(np.zeros((1, 2), dtype=dtm), np.zeros(1, dtype=dtm), far[None])
+                cnt("grow_ops")
+                if isinstance(archive, Spy):
+                    del object.__getattribute__(archive, "_c17_log")[:]
+            continue
         if op["op"] == "reset":
             err = None
             try:
@@ -682,6 +692,8 @@ def gen_case(rng, tier):
                                 "dtype": rng.choice(["float64", "float64", "float32"]), "container": rng.choice(["list", "array"])})
                     dir_mode = "exact"
                 else:
+                    if atype == "proximity" and dir_mode is not None and rng.random() < 0.6:
+                        ops.append({"op": "grow", "by": rng.choice([1, 2, 5])})   # the archive's measure ranges change between two resets
                     ops.append({"op": "reset"})
                     dir_mode = "drawn"
             else:
@@ -689,6 +701,8 @@ def gen_case(rng, tier):
         if ops[-1]["op"] != "rank":
             ops.append(gen_rank(rng, tier, d, dir_mode))
         if rng.random() < 0.5:   # a reset after ranks: the stream must not have been consumed by rank
+            if atype == "proximity":
+                ops.append({"op": "grow", "by": rng.choice([1, 3])})
             ops.append({"op": "reset"})
             ops.append(gen_rank(rng, tier, d, "drawn"))
     else:
